@@ -280,13 +280,20 @@ fn inflate_bytes(data: &[u8]) -> Result<Vec<u8>> {
     Ok(decoded)
 }
 
-pub fn flate_decode(data: &[u8], params: &LZWFlateParams) -> Result<Vec<u8>> {
-
-    let predictor = params.predictor as usize;
+/// Row geometry of a predictor: (bytes per row, bytes per pixel).
+fn predictor_geometry(params: &LZWFlateParams) -> Result<(usize, usize)> {
+    if params.n_components < 1 || params.columns < 1 {
+        bail!("invalid predictor geometry: Colors {}, Columns {}", params.n_components, params.columns);
+    }
     let n_components = params.n_components as usize;
     let columns = params.columns as usize;
-    let stride = columns * n_components;
+    let stride = columns.checked_mul(n_components)
+        .ok_or_else(|| PdfError::Other { msg: "predictor geometry overflows".into() })?;
+    Ok((stride, n_components))
+}
 
+pub fn flate_decode(data: &[u8], params: &LZWFlateParams) -> Result<Vec<u8>> {
+    let predictor = params.predictor;
 
     // First flate decode
     let decoded = {
@@ -303,8 +310,13 @@ pub fn flate_decode(data: &[u8], params: &LZWFlateParams) -> Result<Vec<u8>> {
     // For this, take the old out as input, and write output to out
 
     if predictor >= 10 {
+        let (stride, bpp) = predictor_geometry(params)?;
         let inp = decoded; // input buffer
         let rows = inp.len() / (stride+1);
+        if rows == 0 {
+            // not even one complete row (do not allocate a row of a size the data does not back)
+            return Ok(Vec::new());
+        }
         
         // output buffer
         let mut out = vec![0; rows * stride];
@@ -328,7 +340,7 @@ pub fn flate_decode(data: &[u8], params: &LZWFlateParams) -> Result<Vec<u8>> {
                 let (prev, curr) = out.split_at_mut(out_off);
                 (&prev[last_out_off ..], &mut curr[.. stride])
             };
-            unfilter(predictor, n_components, prev_row, row_in, row_out);
+            unfilter(predictor, bpp, prev_row, row_in, row_out);
             
             last_out_off = out_off;
             
